@@ -54,7 +54,10 @@ def gen_case(r, index, tier):
     H = max(2, int(round(W * r.choice([0.1, 0.25, 0.5, 1, 1, 2, 4, 8]))))   # from square to very elongated dies
     die = {"family": r.choice(["dyadic", "decimal"]), "scale_exp": r.weighted([(0, 5), (1, 2), (-3, 1), (-4, 1), (3, 1), (5, 0.5)]),
            "nx": W, "ny": H, "regions": []}
-    nl = designs.gen_netlist(r, die, nmods=r.randint(3, 9) if r.chance(0.95) else r.randint(12, 24), kinds=["soft", "soft", "soft", "fixed", "terminal"],
+    hard_blocks = r.chance(0.35)
+    nl = designs.gen_netlist(r, die, nmods=r.randint(3, 9) if r.chance(0.95) else r.randint(12, 24),
+                             # movable hard blocks with rectangles in a third of the netlists (seeded change C13-18: relocation must move only centres)
+                             kinds=["soft", "soft", "soft", "fixed", "terminal"] + (["hard", "hard"] if hard_blocks else []),
                              allow_terminals=True, need_centers=True, connected=r.chance(0.7), allow_regions=False)
     mods = nl["modules"]
     for m in mods:
@@ -327,6 +330,11 @@ def run_case(case):
             if not any(x["clause"] == v["clause"] for x in viol):
                 viol.append(v)
     for w in ("B", "C"):
+        if "skipped" in results[w]:
+            # the instance was rejected while loading in this world only: the loading verdict depending on earlier designs
+            # (process-wide rectangle tolerance) is C20's subject and a known finding there, not a statement about relocation
+            probes["instance_rejected_while_loading_in_another_world"] = 1
+            continue
         for entry in ("layout", "force", "pinned"):
             if canon(results[w].get(entry)) != canon(results["A"].get(entry)):
                 viol.append({"property": "C13", "clause": "result differs between simulated worlds (not deterministic)",
@@ -345,6 +353,8 @@ def run_case(case):
         probes["coincident_centres"] = 1
     if any(m["kind"] == "terminal" for m in mods):
         probes["instance_with_terminal"] = 1
+    if any(m["kind"] == "hard" and m.get("boxes") for m in mods):
+        probes["instance_with_movable_hard_block_with_rectangles"] = 1
     if results["A"].get("pinned"):
         probes["relocated_again_after_pinning_a_terminal"] = 1
     if case.get("visualize"):
